@@ -214,6 +214,46 @@ def run(chk):
             pass  # already reported through the observable comparison above
         chk.note('model-drift C19: access log of cumsum.py_func is not a behaviour of layer A (observables are judged separately)')
     chk.cov['traces_validated_against_impl'] += len(traces)
+    # ---- extended coverage (specification growth, spec/Menv.tla): the cumsum call site in hod/menv.py — batched neighbour sums
+    try:
+        mt = ("---- MODULE MC_Menv ----\nEXTENDS Menv\nVARIABLE v\nASSUME AllOK(%d, 3)\nInit == v = 0\nNext == v' = v\n====\n" % (4 if chk.quick else 5))
+        run_tlc(chk, 'MC_Menv', module_text=mt, cfg_text='INIT Init\nNEXT Next\n', timeout=900)
+        from abacusnbody.hod import menv
+        from scipy.spatial import KDTree
+        rng = np.random.default_rng(chk.seed)
+        bad = []
+        # concat_to_arr: starts / flat indices
+        for lists in ([[1, 2], [], [3]], [[0]], [[], []], [[5, 4, 3, 2, 1]]):
+            res, starts = menv.concat_to_arr(lists)
+            flat = [x for l in lists for x in l]
+            st = [0] + list(np.cumsum([len(l) for l in lists]))
+            if res.tolist() != flat or starts.tolist() != st:
+                bad.append(f'concat_to_arr({lists}) -> {res.tolist()}, {starts.tolist()}')
+        # do_Menv_from_tree: independent of batch size and thread count, equal to the brute-force difference of aperture sums
+        Lbox = 16.0
+        for n in (1, 5, 23):
+            pos = rng.integers(0, 32, (n, 3)) * 0.5 - Lbox / 2
+            mass = rng.choice([1e10, 5e11, 2e12], n)
+            ref = None
+            for bs in (1, 2, 7, 100000):
+                for nt in (1, 3):
+                    import contextlib, io
+                    with contextlib.redirect_stdout(io.StringIO()):
+                        out = menv.do_Menv_from_tree(pos, mass, 1.0, 3.0, False, Lbox, nt, mcut=1e11, batch_size=bs)
+                    if ref is None:
+                        ref = out
+                        # brute force with periodic minimum image
+                        d = pos[:, None, :] - pos[None, :, :]
+                        d = (d + Lbox / 2) % Lbox - Lbox / 2
+                        r = np.sqrt((d ** 2).sum(axis=2))
+                        bf = np.where(mass > 1e11, ((r <= 3.0) * mass[None, :]).sum(axis=1) - ((r <= 1.0) * mass[None, :]).sum(axis=1), 0.0)
+                        if not np.allclose(out, bf, rtol=1e-12):
+                            bad.append(f'do_Menv_from_tree N={n}: differs from brute force')
+                    elif not np.array_equal(out, ref):
+                        bad.append(f'do_Menv_from_tree N={n}: batch_size={bs} nthread={nt} differs from batch_size=1')
+        chk.extended('Menv (batched neighbour sums, concat_to_arr, msum_core)', not bad, '; '.join(bad[:3]))
+    except Exception as e:  # noqa
+        chk.extended('Menv (batched neighbour sums, concat_to_arr, msum_core)', False, f'{type(e).__name__}: {e}')
 
 
 def replay(chk, path):
